@@ -45,6 +45,12 @@ CHECKS = {
             "data classes, nested combinators) built by operators, constructors and typing.Union, with inputs aimed at each argument; the outcome "
             "is compared with the semantics stated in the property, every xor is re-run under all permutations, and the algebra laws are checked on every tree.",
             "Trusted: standalone verdicts via utype.type_transform (arguments are judged by C01/C02), vf/tspec.py:conforms, vf/oracle.py:equal.", "3/C09"),
+    "C11": ("metamorphic property-based testing (Hypothesis): exclude == strict parse of the input minus the independently established offenders; preserve == that plus the offenders reinserted unchanged; over containers, data-class fields, typed addition, *args/**kwargs and all policy triples",
+            "hypothesis",
+            "Exploration: generated List/Set/FrozenSet/Tuple[T,...]/Dict[K,V] types (one nesting level), data classes with per-field on_error, "
+            "typed addition, and functions with *args/**kwargs, fed element lists with any subset offending under the 27 policy triples; the result "
+            "is compared with the metamorphic expectation built from the standalone strict parse of every element.",
+            "Trusted: element-level verdicts via utype.type_transform (judged by C01/C02); vf/oracle.py:equal (sets compared as sets).", "3/C11"),
     "C12": ("differential/metamorphic property-based testing (Hypothesis + exhaustive pair table): the same (source, target) under the 4 flag combinations; subset+equality relation and independent no-loss / group predicates",
             "hypothesis",
             "Exploration: a fixed table of ~170 representative sources x 29 targets x 2 entries x 4 flag sets enumerated completely on every run, "
